@@ -8,7 +8,7 @@ set_option linter.unusedSectionVars false
 set_option linter.unusedVariables false
 
 namespace Anko
-variable [FOps]
+variable [FOps] [Prov]
 
 /-- `r` is a later state of the same run as `s` as far as cancellation is concerned -/
 def Later (s r : St) : Prop := r.cancelAt = s.cancelAt ∧ s.polls ≤ r.polls
